@@ -167,9 +167,13 @@ def expected_actual_ok(p, q, e):
         return e['expected_required'] == [p['banner']] and e['actual'] == [q['banner_str']]
     if f.startswith('Host key (') and f.endswith(') sizes'):
         t = f[len('Host key ('):-len(') sizes')]
+        if t not in (p.get('hostkey_sizes') or {}) or t not in q['host_keys']:
+            return False      # an error about a key type the policy does not list / the peer does not present
         return e['expected_required'] == [str(p['hostkey_sizes'][t]['hostkey_size'])] and e['actual'] == [str(q['host_keys'][t]['hostkey_size'])]
     if f.startswith('Group exchange (') and f.endswith(') modulus sizes'):
         t = f[len('Group exchange ('):-len(') modulus sizes')]
+        if t not in (p.get('dh_modulus_sizes') or {}) or t not in q['dh']:
+            return False      # an error about an algorithm the policy does not list / whose modulus was never measured (seed C06-8)
         return e['expected_required'] == [str(p['dh_modulus_sizes'][t])] and e['actual'] == [str(q['dh'][t])]
     if f == 'CA signature type' or f.startswith('CA signature size ('):
         return len(e['expected_required']) == 1 and len(e['actual']) == 1
